@@ -52,7 +52,8 @@ def legal(addr, length, size, burst, bus_bytes):
 def byte_lanes(beat_addr, size, bus_bytes, first):
     """(lower, upper) byte lanes used by a transfer at byte address beat_addr."""
     nbytes = 1 << size
-    if first:
+    if first or beat_addr % nbytes:
+        # first transfer, or every transfer of a FIXED burst with an unaligned start: same lanes each beat
         lower = beat_addr % bus_bytes
         upper = (beat_addr // nbytes) * nbytes + nbytes - 1 - (beat_addr // bus_bytes) * bus_bytes
     else:
